@@ -104,7 +104,7 @@ let srv_case ts : str =
                  (match ts.t with
                   | f :: r when f <> ";" -> ts.t <- r;
                     let k = (match f with "error" -> FError | "notfound" -> FNotFound | "refresh412" | "refresh416" -> FRefresh
-                                        | "canceled" -> FCanceled | "midstream" -> FMidstream | _ -> FBadBytes) in
+                                        | "canceled" -> FCanceled | "midstream" | "cutoff" -> FMidstream | _ -> FBadBytes) in
                     Some (MFault (name, tag, o, l, k))
                   | _ -> Some (MRelease (name, tag, o, l)))
         | "X" -> let vid = ti ts in let (name, v) = L.nth vers vid in Some (MReplace (name, v))
@@ -196,12 +196,12 @@ let run_case (line:str) : str =
   | "optreg" ->
     let target = tn ts in let n = ti ts in let gap = tn ts in let l = tn ts in
     let es = L.init n (fun i -> { tid = N.mul (n_of_int i) gap; off = N.mul (n_of_int i) l; len = l; run = n_of_int 1 }) in
-    (match optimize_small serialize_entries es target with
+    (match optimize serialize_entries es target (go_sizes (n_of_int (L.length es)) (nat_of_int 80)) with
      | Some ((root, leaves), nl) -> Printf.sprintf "ok %d %s %s" (int_of_nat nl) (digest_bytes root) (digest_bytes leaves)
      | None -> "outoffuel")
   | "optdir" ->
     let target = tn ts in let es = tents ts in
-    (match optimize_small serialize_entries es target with
+    (match optimize serialize_entries es target (go_sizes (n_of_int (L.length es)) (nat_of_int 80)) with
      | Some ((root, leaves), n) -> Printf.sprintf "ok %d %s %s" (int_of_nat n) (digest_bytes root) (digest_bytes leaves)
      | None -> "outoffuel")
   | "cluster" ->
